@@ -77,3 +77,8 @@ def roundtrip_variant() -> dict:
 # Handler.tla: WrapperPolicy "own" after the fix: commit for F6
 def handler_variant() -> str:
     return os.environ.get("XV_HANDLER_VARIANT", "own")
+
+
+# Generic.tla: AnyAttrPolicy "expand" as shipped (F18 open)
+def generic_variant() -> str:
+    return os.environ.get("XV_GENERIC_VARIANT", "expand")
